@@ -47,6 +47,9 @@ fn start_watchdog(t0: std::time::Instant) {
             if st != 0 && !QUITTING.load(Ordering::SeqCst) {
                 let lim = WATCHDOG_MS.load(Ordering::SeqCst);
                 if now_ms(t0).saturating_sub(st) > lim {
+                    // the event log up to the hang (empty `ev` line if the log is off): lets the monitors
+                    // replay the run up to the point where it got stuck
+                    emit(&do_events());
                     emit(&format!("timeout # op {} exceeded {} ms", OP_SEQ.load(Ordering::SeqCst), lim));
                     std::process::exit(3);
                 }
@@ -955,6 +958,49 @@ fn exec(it: &mut Interp, t: &[&str]) -> Result<String, String> {
             let n = rt::join_gc_threads();
             rt::leave_safe_region();
             mmtk.after_fork(rt::mut_tls(0).0);
+            Ok(format!("ok # joined {n}"))
+        }
+        // `forkgc m exhaustive [point]` / `shutdowngc m exhaustive [point]`: a StopForFork / Shutdown request
+        // made WHILE a collection is in progress (see HX_GC.md); `shutdown`: the request between collections.
+        "forkgc" | "shutdowngc" => {
+            need(2)?;
+            let m = unum(t[1]);
+            mutator(m)?;
+            let shutdown = t[0] == "shutdowngc";
+            let point = if t.len() > 3 { unum(t[3]) } else { rt::PT_STOP };
+            if point >= rt::PT_COUNT {
+                return Err("err bad-args".into());
+            }
+            rt::arm_stop_request(point, shutdown);
+            mmtk.handle_user_collection_request(rt::mut_tls(m), true, t[2] == "1");
+            // the pause is over; if this GC never reached the point (no GC at all, or a plan whose first pause
+            // does not get there) the request is made now, by the driver
+            let at = match rt::disarm_stop_request() {
+                Some(p) => p.to_string(),
+                None => {
+                    if shutdown {
+                        mm::mmtk_shutdown(mmtk);
+                    } else {
+                        mmtk.prepare_to_fork();
+                    }
+                    "after".to_string()
+                }
+            };
+            // every GC thread must exit (the watchdog turns a hang into `timeout` + exit code 3)
+            rt::enter_safe_region();
+            rt::join_stop_helper();
+            let n = rt::join_gc_threads();
+            rt::leave_safe_region();
+            if !shutdown {
+                mmtk.after_fork(rt::mut_tls(0).0);
+            }
+            Ok(format!("ok gcs={} # joined {n} at={at}", rt::gcs()))
+        }
+        "shutdown" => {
+            mm::mmtk_shutdown(mmtk);
+            rt::enter_safe_region();
+            let n = rt::join_gc_threads();
+            rt::leave_safe_region();
             Ok(format!("ok # joined {n}"))
         }
         "flush" => {
